@@ -693,7 +693,9 @@ static FloatV float_model(const std::string &s)
   size_t nz       = digits.find_first_not_of('0');
   if (res.ec == std::errc() && res.ptr == txt.data() + txt.size())
   {
-    if (nz != std::string::npos && (f == 0 || std::fpclassify(f) == FP_SUBNORMAL))
+    // at or below the smallest normal float: libc may flag ERANGE for a value that was tiny before
+    // rounding ("1.1754943e-38" rounds up to FLT_MIN and glibc still reports underflow)
+    if (nz != std::string::npos && std::fabs(f) <= FLT_MIN)
       return {kDontCare, "underflow", 0};
     if (!std::isfinite(f))
       return {kDontCare, "model-unsure", 0};
@@ -2507,7 +2509,26 @@ static void create_case(uint64_t seed)
   SvcModel sm  = svc_model(have_svc ? &svc : nullptr);
   R.count("create_children");
   count_list(lm, sm, "create");
-  ChildOut co = run_child([&] { create_child_body(seed, have_attrs, attrs, have_svc, svc); });
+  // fork + exec of this executable: a fresh process whose Resource::Create has certainly never
+  // run (in the parent an SDK path such as ReadableLogRecord::GetDefaultResource() may have
+  // initialised the function-local static already)
+  ChildOut co = run_child([&] {
+    if (have_attrs)
+      setenv("OTEL_RESOURCE_ATTRIBUTES", attrs.c_str(), 1);
+    else
+      unsetenv("OTEL_RESOURCE_ATTRIBUTES");
+    if (have_svc)
+      setenv("OTEL_SERVICE_NAME", svc.c_str(), 1);
+    else
+      unsetenv("OTEL_SERVICE_NAME");
+    std::string fd = std::to_string(g_child_fd), sd = std::to_string(seed);
+    std::string fl = std::string(have_attrs ? "a" : "-") + (have_svc ? "s" : "-");
+    char a0[] = "c18_resource_env", a1[] = "--c18-create-child";
+    char *av[] = {a0, a1, &fd[0], &sd[0], &fl[0], nullptr};
+    execv("/proc/self/exe", av);
+    fprintf(stderr, "c18: execv failed: %s\n", strerror(errno));
+    _exit(8);
+  });
   std::string last_cls = "before-first-call";
   for (auto &rec : co.recs)
   {
@@ -2684,8 +2705,8 @@ static void judge_seen(const SeenList &seen, size_t want_n, const sdkr::Resource
       C("provider_resource_identity_" + signal);
     if (!same_model(s.attrs, want) || s.schema != schema)
     {
-      V("export-references-provider-resource", signal + "/" + how,
-        "resource at the exporter " + show_model(s.attrs) + " schema<" + vf::show(s.schema, 40) + "> want " + show_model(want) + " schema<" +
+      V("export-references-provider-resource", signal + "/" + how.substr(0, how.find('+')),
+        how + ": resource at the exporter " + show_model(s.attrs) + " schema<" + vf::show(s.schema, 40) + "> want " + show_model(want) + " schema<" +
             vf::show(schema, 40) + ">");
       return;
     }
@@ -2826,10 +2847,22 @@ public:
 
 int main(int argc, char **argv)
 {
-  auto &R = vf::report();
-  R.init("C18", argc, argv);
   SilentLog *sl = new SilentLog;
   sdkc::internal_log::GlobalLogHandler::SetLogHandler(nostd::shared_ptr<sdkc::internal_log::LogHandler>(sl));
+  if (argc >= 5 && strcmp(argv[1], "--c18-create-child") == 0)
+  {
+    // exec'd by create_case(): the environment is already in place, records go to the inherited pipe
+    g_child_fd        = atoi(argv[2]);
+    uint64_t seed     = strtoull(argv[3], nullptr, 10);
+    bool have_attrs   = argv[4][0] == 'a', have_svc = argv[4][1] == 's';
+    const char *a     = getenv("OTEL_RESOURCE_ATTRIBUTES");
+    const char *n     = getenv("OTEL_SERVICE_NAME");
+    create_child_body(seed, have_attrs, a ? a : "", have_svc, n ? n : "");
+    child_emit('D', "", "", "");
+    _exit(0);
+  }
+  auto &R = vf::report();
+  R.init("C18", argc, argv);
   unsetenv("OTEL_RESOURCE_ATTRIBUTES");
   unsetenv("OTEL_SERVICE_NAME");
   unsetenv("OTEL_SDK_DISABLED");
